@@ -289,6 +289,9 @@ class Evaluator:
         if isinstance(e, False_):
             return (F, F)
         if isinstance(e, BooleanClauseList):
+            if len(e.clauses) == 0:
+                # SQLAlchemy's compiler omits an empty and_()/or_() altogether (no criterion at all)
+                return (T, F)
             parts = [self.expr(c, env) for c in e.clauses]
             if e.operator is ops.and_:
                 t = A.and_([self.truth(p) for p in parts])
